@@ -216,7 +216,10 @@ class Gen(object):
             arrs = env.vars(lambda i: i['ty'] == 'arr' and i['el'] == ty) if self.arrays else []
             if arrs and t.flag():
                 a = t.choice(arrs)
-                return N('IndexAccessNode', handle=self.var(a), expression=N('IntegerNode', value=str(t.pick(env.get(a)['n']))))
+                e = N('IndexAccessNode', handle=self.var(a), expression=N('IntegerNode', value=str(t.pick(env.get(a)['n']))))
+                for n_ in env.get(a).get('more', []):
+                    e = N('IndexAccessNode', handle=e, expression=N('IntegerNode', value=str(t.pick(n_))))
+                return e
             vs = env.vars(lambda i: i['ty'] == ty)
             if vs:
                 return self.var(t.choice(vs))
@@ -499,13 +502,20 @@ class Gen(object):
             if arrs and t.flag():
                 name = t.choice(arrs)
                 idx = t.pick(env.get(name)['n'])
+                more = [t.pick(n_) for n_ in env.get(name).get('more', [])]
             else:
                 name = env.fresh('arr')
                 idx = t.pick(3)
-                env.set(name, {'ty': 'arr', 'el': ty, 'n': idx + 1})
+                # one array in three has two or three dimensions: `m[1][2] = ...` declares them all at once
+                more = [t.pick(3) for _ in range(t.pick(3))] if t.pick(3) == 0 else []
+                env.set(name, {'ty': 'arr', 'el': ty, 'n': idx + 1, 'more': [i + 1 for i in more]})
+                if more:
+                    self.features.add('array-dims-%d' % (len(more) + 1))
             self.features.add('array')
-            return [N('AssignmentNode', variable_access=N('IndexAccessNode', handle=self.var(name), expression=N('IntegerNode', value=str(idx))),
-                      expression=rhs)]
+            target = N('IndexAccessNode', handle=self.var(name), expression=N('IntegerNode', value=str(idx)))
+            for i in more:
+                target = N('IndexAccessNode', handle=target, expression=N('IntegerNode', value=str(i)))
+            return [N('AssignmentNode', variable_access=target, expression=rhs)]
         if k <= 2:
             return self.assign_scalar(env)
         if k == 3:
